@@ -43,6 +43,14 @@ CORE = {
         'kind=flush,ctor=std,calls=V40.F0,k=a,closers=0',
         'kind=flush,ctor=std,calls=V70.F3t,k=a.0.a,closers=0',
         'kind=flush,ctor=fd,calls=V33.W2,k=100.a,closers=1',
+        # the flusher runs INSIDE the OnRequest handler (inh=1: the real onProcess task holds `processing`, so a Close() from
+        # another goroutine cannot run the callbacks itself), against a socket that stays full (k=..z: no write event any
+        # more): only the close or the timer can end the Flush
+        'kind=flush,ctor=std,calls=W4,k=z,closers=1,inh=1',
+        'kind=flush,ctor=std,calls=W6t.W2,k=2.z,closers=1,inh=1',
+        'kind=flush,ctor=fd,calls=M2.F3,k=0.z,ev=h,closers=1,inh=1,f2=1',
+        'kind=flush,ctor=std,calls=W4.W3,k=0.a.0,closers=2,inh=1',
+        'kind=flush,ctor=std,calls=W5,k=1.z,closers=1',
         # small ones, exhausted at the bound
         'kind=flush,ctor=std,calls=W4,k=0,closers=0',
         'kind=flush,ctor=std,calls=W4t,k=0.0,closers=0',
@@ -63,6 +71,10 @@ def product_space(prop):
         ks = ['-', '0', '0.0', '0.0.0', '1', '2.0', '0.1.0', '3.0.a.0', 'a.0', '0.a.0.2']
         for ctor, c, k, cl, ev, f2 in itertools.product(['std', 'fd'], calls, ks, [0, 1, 2], ['-', 'h'], [0, 1]):
             out.append('kind=flush,ctor=%s,calls=%s,k=%s,ev=%s,closers=%d,f2=%d' % (ctor, c, k, ev, cl, f2))
+        # the same calls made inside the OnRequest handler (inh=1), half of them against a socket that stays full (..z; only with
+        # a closer: without data, close or timer a Flush rightly waits)
+        for ctor, c, k, cl, ev in itertools.product(['std', 'fd'], calls, ['0', 'z', '0.z', '2.z', '0.1.0', 'a.0'], [1, 2], ['-', 'h']):
+            out.append('kind=flush,ctor=%s,calls=%s,k=%s,ev=%s,closers=%d,f2=0,inh=1' % (ctor, c, k, ev, cl))
     return out
 
 def sample_scenarios(prop, seed, n):
